@@ -1324,7 +1324,11 @@ class SMPose(SMUserList):
         =========   ==========   ====  ================================
 
         """
-        return [not x for x in left == right]
+        eq = left == right
+        if isinstance(eq, list):
+            return [not x for x in eq]
+        else:
+            return not eq
 
     def _op2(left, right, op):  # lgtm[py/not-named-self] pylint: disable=no-self-argument
         """
